@@ -42,6 +42,8 @@ var Pool = []Pkg{
 	{"github.com/kardianos/govendor/context", "context"}, // an element that merely ENDS in "vendor": not a vendor path
 	{"h.io/myvendor", "myvendor"},
 	{"example.com/tools/vendor", "vendor"}, // the LAST element is called vendor: still not a vendored path
+	{"k8s.example/api/core/v9", "v9"},      // a package that really is called like its version element (API groups; v9 because generated declarations are called v1, v2, ...)
+	{"h.io/go-cmp/cmp", "cmp"},
 	{"root/vendor/g.com/vend", "vend"},
 	{"root/vendor/g.com/other", "other"},
 	{"m3/vendor/v.org/lib", "lib"},
@@ -427,6 +429,9 @@ func Source(t *tape.Tape, opt Options) Spec {
 		}
 	} else if t.Bool(1, 6) {
 		fmt.Fprintf(sb, "// +build linux\n\n")
+	} else if t.Bool(1, 6) {
+		// the header tools put on generated files (such files are edited too: renames, regenerated parts)
+		fmt.Fprintf(sb, "// Code generated by protoc-gen-sim. DO NOT EDIT.\n\n")
 	}
 	fmt.Fprintf(sb, "package %s\n\n", sp.PkgName)
 	cgoInGroup := false
@@ -519,6 +524,10 @@ func Source(t *tape.Tape, opt Options) Spec {
 			sb.WriteString("_ = 0\n")
 		}
 		sb.WriteString(")\n\n")
+	}
+	if opt.UseAll && sp.Dot {
+		// a dot-import is used through bare identifiers
+		fmt.Fprintf(sb, "var _ = %s\n\n", g.pick(exported))
 	}
 	if t.Bool(1, 6) && !opt.NoTrailing {
 		sb.WriteString("// trailing comment\n")
